@@ -58,7 +58,7 @@ func loadEngine(repo string, verifDir string) (*Engine, error) {
 	if nerr > 0 {
 		return nil, fmt.Errorf("%d package load errors (does /repo compile?)", nerr)
 	}
-	prog, spkgs := ssautil.AllPackages(pkgs, ssa.InstantiateGenerics)
+	prog, spkgs := ssautil.AllPackages(pkgs, ssa.InstantiateGenerics|ssa.GlobalDebug)
 	prog.Build()
 	e := &Engine{repo: repo, prog: prog, fset: prog.Fset, pkgs: spkgs, funcs: map[string]*ssa.Function{}, stableNN: map[string]bool{}, modPkgSet: map[*types.Package]bool{}}
 	seen := map[string]bool{}
